@@ -7,8 +7,8 @@ import json
 import bindgen as G
 import bindlib as B
 
-WIDE_FEATURES = {"attr", "elem", "child", "list", "text", "ns", "nillable", "tokens", "wrapper", "sequence", "attributes", "fixed", "inherit", "wildcard"}
-FEAT = {"nillable": True, "tokens": True, "wrapper": True, "sequence": True, "fixed": True, "anyAttrs": True, "inherit": True, "wildcard": True}
+WIDE_FEATURES = {"attr", "elem", "child", "list", "text", "ns", "nillable", "tokens", "wrapper", "sequence", "attributes", "fixed", "inherit", "wildcard", "punion"}
+FEAT = {"nillable": True, "tokens": True, "wrapper": True, "sequence": True, "fixed": True, "anyAttrs": True, "inherit": True, "wildcard": True, "union": True}
 XSI = "http://www.w3.org/2001/XMLSchema-instance"
 
 TYPING = ("out-of-claim: None inside a list that is not nillable", "out-of-claim: None where the default is not None")
@@ -61,6 +61,39 @@ def _ftype(f):
 
 def _is_list(t):
     return isinstance(t, dict) and "list" in t
+
+
+UNION_NOT_ELEMENT = "out-of-claim: union-typed attribute or text var (not in the fragments)"
+UNION_EARLIER = "C01-union-value-reads-as-earlier-type"
+
+
+def union_reads_back(types, y):
+    """`converter.deserialize(serialize(y), types)`, re-stated: the first member type (in the order of
+    `var.types`) that accepts the text"""
+    if "str" in y:
+        text = y["str"]
+    elif "bool" in y:
+        text = "true" if y["bool"] else "false"
+    else:
+        text = str(y["int"])
+    if text == "":
+        return {"str": ""}   # the empty element has no text: `""` whatever the types
+    for t in types:
+        t = t["prim"] if isinstance(t, dict) else t
+        if t == "str":
+            return {"str": text}
+        if t == "int":
+            try:
+                return {"int": int(text)}
+            except ValueError:
+                continue
+        if t == "bool":
+            v = text.strip()
+            if v in ("true", "1"):
+                return {"bool": True}
+            if v in ("false", "0"):
+                return {"bool": False}
+    return None
 
 
 SUBCLASS_OFF = "out-of-claim: instance of a proper subclass (fragments without inheritance)"
@@ -241,7 +274,14 @@ def regions(desc, value, ctx=None, inherit=True):
             base = G._base(t)
             is_cls = isinstance(base, dict) and "cls" in base
 
+            is_union = isinstance(base, dict) and "union" in base and all(isinstance(m_, str) for m_ in base["union"])
+
             def item(y, in_list):
+                if is_union and isinstance(y, dict) and any(k in y for k in ("str", "int", "bool")):
+                    var = next(w for _, vs in meta["elements"] for w in vs if w["name"] == f["name"])
+                    if union_reads_back(var["types"], y) != y:
+                        out.append(UNION_EARLIER)
+                    return
                 if y is None:
                     if in_list and not nillable:
                         out.append(TYPING[0])
@@ -262,6 +302,9 @@ def regions(desc, value, ctx=None, inherit=True):
                     if not in_list and dflt not in (None, "", "<required>"):
                         out.append("C01-empty-str-element-default")
 
+            if typ in ("Attribute", "Text") and isinstance(base, dict) and "union" in base:
+                out.append(UNION_NOT_ELEMENT)
+                continue
             if f.get("init") is False and x != G_val(dflt):
                 out.append(FIXED)
             if typ == "Wildcard":
@@ -346,6 +389,13 @@ def ctx_expected(ctx, ns_agree, feat=None):
                 if (not v["init"] and not on("fixed")) or (v["sequence"] is not None and not on("sequence")) \
                         or (v["nillable"] and not on("nillable")) or (v["tokens"] and not on("tokens")) \
                         or (v["wrapper_qname"] and not on("wrapper")):
+                    return False
+            if any(len(w["types"]) > 1 for _, w in m["attributes"]) or (m["text"] and len(m["text"]["types"]) > 1):
+                return False  # a union-typed attribute or text var: not in the fragments
+            # a union of primitives: an element var, Optional with default None or a list
+            for v in vs:
+                if len(v["types"]) > 1 and not (on("union") and v["init"] and not v["tokens"] and not v["nillable"]
+                                                and v["default"] == ("list" if v["list_element"] else None)):
                     return False
             if m["text"] and (vs or m["wildcards"]):
                 return False  # a subclass adds child elements to a class with a text var (not in the fragments)
@@ -490,7 +540,7 @@ def normal_generic(value):
 
 
 # the feature sets of the theorems bind_generate_F2 … F8 (Props/C01Wide.lean)
-_ORDER = ["nillable", "tokens", "wrapper", "sequence", "fixed", "anyAttrs", "inherit", "wildcard"]
+_ORDER = ["nillable", "tokens", "wrapper", "sequence", "fixed", "anyAttrs", "inherit", "wildcard", "union"]
 FRAGMENTS = {
     "F2": {"nillable": True},
     "F3": {"nillable": True, "tokens": True},
@@ -498,7 +548,8 @@ FRAGMENTS = {
     "F5": {"nillable": True, "tokens": True, "wrapper": True, "sequence": True},
     "F6": {"nillable": True, "tokens": True, "wrapper": True, "sequence": True, "fixed": True, "anyAttrs": True},
     "F7": {"nillable": True, "tokens": True, "wrapper": True, "sequence": True, "fixed": True, "anyAttrs": True, "inherit": True},
-    "F8": dict(FEAT),
+    "F8": {k: True for k in FEAT if k != "union"},
+    "F9": dict(FEAT),
 }
 
 
@@ -516,7 +567,7 @@ def pick_feat(rng):
 def features_for(rng, feat):
     """generator features that mostly stay inside `feat` (and sometimes do not)"""
     need = {"nillable": "nillable", "tokens": "tokens", "wrapper": "wrapper", "sequence": "sequence", "attributes": "anyAttrs",
-            "fixed": "fixed", "inherit": "inherit", "wildcard": "wildcard"}
+            "fixed": "fixed", "inherit": "inherit", "wildcard": "wildcard", "punion": "union"}
     return {f for f in WIDE_FEATURES if f not in need or feat.get(need[f]) or rng.random() < 0.06}
 
 
@@ -681,6 +732,18 @@ WILD_SINGLE_CASE = _case(
     _o("Root", w=_any("g", "t")))
 
 
+# unions of primitives
+_UNION_ROOT = {"classes": [{"name": "Root", "fields": [
+    _f("a", {"opt": {"union": ["int", "str"]}}, NONE, type="Element"),
+    _f("b", {"list": {"union": ["bool", "str"]}}, LIST, type="Element")]}]}
+UNION_OK = _case(_UNION_ROOT, _o("Root", a={"str": "abc"}, b={"list": [{"bool": True}, {"str": "x"}, {"str": ""}]}))
+UNION_INT = _case(_UNION_ROOT, _o("Root", a={"int": 5}, b={"list": []}))
+UNION_STR_AS_BOOL = _case(_UNION_ROOT, _o("Root", a=None, b={"list": [{"str": "true"}]}))
+UNION_STR_AS_INT = _case(_UNION_ROOT, _o("Root", a={"str": "5"}, b={"list": []}))
+UNION_ATTR = _case({"classes": [{"name": "Root", "fields": [_f("c", {"opt": {"union": ["bool", "int"]}}, NONE, type="Attribute")]}]},
+                   _o("Root", c={"int": 7}))
+
+
 def replay(desc, value, expect):
     """(still fails on every writer x handler combination, detail)"""
     u = B.Universe(desc)
@@ -708,4 +771,5 @@ FINDINGS = {
     "C01-attributes-key-declared": lambda: replay(*MAP_KEY_DECLARED, lambda x: '["m", {"attrs": []}], ["k", {"int": 5}]' in x),
     "C01-attributes-value-prefix-rewritten": lambda: replay(*MAP_VALUE_PREFIX, lambda x: '"{urn:q}bar"' in x),
     "C01-wildcard-item-named-as-class": lambda: replay(*WILD_CLASS_NAME, lambda x: '["w", {"list": [{"obj": "Leaf"' in x),
+    "C01-union-value-reads-as-earlier-type": lambda: replay(*UNION_STR_AS_BOOL, lambda x: '["b", {"list": [{"bool": true}]}]' in x),
 }
